@@ -28,28 +28,82 @@ EXPLANATION = (
 
 def run(ctx: Ctx):
     k = ctx.func("mst", "kruskal")
+    # the scan: every loop that offers edges to union-find, in kruskal itself or in a closure of it
+    parents = {}
+    for n in ast.walk(k.node):
+        for c in ast.iter_child_nodes(n):
+            parents[id(c)] = n
+    unions = [n for n in ast.walk(k.node) if isinstance(n, ast.Call) and ast.unparse(n.func) == "uf.union"]
+    ctx.require(len(unions) >= 1, "kruskal no longer offers edges to uf.union")
+
+    def enclosing(n, kinds):
+        n = parents.get(id(n))
+        while n is not None and not isinstance(n, kinds):
+            n = parents.get(id(n))
+        return n
+
+    def sources(e, scope, depth=0):
+        """expressions the scanned sequence `e` can denote (through single-definition names and closure parameters)"""
+        if depth > 4:
+            return [e]
+        if isinstance(e, ast.Name):
+            if isinstance(scope, ast.FunctionDef) and scope is not k.node and e.id in {a.arg for a in scope.args.args}:
+                pos = [a.arg for a in scope.args.args].index(e.id)
+                outer = enclosing(scope, (ast.FunctionDef,))
+                out = []
+                for c in ast.walk(k.node):
+                    if isinstance(c, ast.Call) and isinstance(c.func, ast.Name) and c.func.id == scope.name and len(c.args) > pos:
+                        out += sources(c.args[pos], enclosing(c, (ast.FunctionDef,)) or outer, depth + 1)
+                return out or [e]
+            defs = [d.value for d in ast.walk(scope) if isinstance(d, ast.Assign) and len(d.targets) == 1 and ast.unparse(d.targets[0]) == e.id]
+            if defs:
+                return [x for d in defs for x in sources(d, scope, depth + 1)]
+        return [e]
+
+    acc_all = [n for n in ast.walk(k.node) if isinstance(n, ast.AugAssign) and isinstance(n.op, ast.Add) and ast.unparse(n.target) == "total_weight"]
+    app_all = [n for n in ast.walk(k.node) if isinstance(n, ast.Call) and ast.unparse(n.func) == "mst_edges.append"]
+    first_sorted = None
+    for un in unions:
+        loop = enclosing(un, (ast.For,))
+        scope = enclosing(un, (ast.FunctionDef,))
+        okl = loop is not None and isinstance(loop.target, ast.Tuple) and len(loop.target.elts) == 3
+        tgt = [ast.unparse(e) for e in loop.target.elts] if okl else ["?", "?", "?"]
+        srcs = sources(loop.iter, scope) if okl else []
+        bad = []
+        kidxs = set()
+        for sx in srcs:
+            good = isinstance(sx, ast.Call) and ast.unparse(sx.func) == "sorted" and len(sx.args) == 1 and ast.unparse(sx.args[0]) == "edges" and not any(kw.arg == "reverse" for kw in sx.keywords)
+            key = next((kw.value for kw in sx.keywords if kw.arg == "key"), None) if good else None
+            kidx = None
+            if isinstance(key, ast.Lambda) and isinstance(key.body, ast.Subscript) and isinstance(key.body.slice, ast.Constant):
+                kidx = key.body.slice.value
+            elif isinstance(key, ast.Name):
+                kd = [d for d in ast.walk(k.node) if isinstance(d, ast.FunctionDef) and d.name == key.id]
+                if len(kd) == 1 and len(kd[0].body) == 1 and isinstance(kd[0].body[0], ast.Return) and isinstance(kd[0].body[0].value, ast.Subscript) and isinstance(kd[0].body[0].value.slice, ast.Constant):
+                    kidx = kd[0].body[0].value.slice.value
+            if not good or kidx is None:
+                bad.append(ast.unparse(sx)[:70])
+            else:
+                kidxs.add(kidx)
+                first_sorted = first_sorted or sx
+        acc = [a for a in acc_all if enclosing(a, (ast.For,)) is loop]
+        ok = okl and bool(srcs) and not bad and len(kidxs) == 1 and len(acc) == 1 and ast.unparse(acc[0].value) == tgt[next(iter(kidxs))]
+        ctx.ob("C13-O1", "R30 ACCUMULATOR-PAIRING", k, "edges are scanned in non-decreasing order of the component that is accumulated as weight, and the scan ranges over the complete sorted input", ok, (f"the scan also runs over `{bad[0]}`, which is not the whole edge list sorted by weight: an edge left out (or met out of order) can be the one the minimum tree needs" if bad else f"sort key index {sorted(kidxs)}, accumulated `{ast.unparse(acc[0].value) if acc else '?'}` of {tgt}"), node=loop if loop is not None else un)
+        app = [a for a in app_all if enclosing(a, (ast.For,)) is loop]
+        scfg = cfg_of(scope)
+        sgv = GuardView(scfg)
+        ctx.ob("C13-O1", "R30 ACCUMULATOR-PAIRING", k, "tree append and weight increment occur once per scan, in the same block", len(app) == 1 and len(acc) == 1 and _enclosing_block(scope, scfg.stmt_node_containing(app[0]).ast) is _enclosing_block(scope, acc[0]), "", node=app[0] if app else un)
+        if app:
+            at = sgv.guard_atoms(scfg.stmt_node_containing(app[0]), stable_only=False)
+            ctx.ob("C13-O1", "R1 STATUS-GUARD", k, "an edge is accepted iff union(u, v) merged two components", f"T:uf.union({tgt[0]}, {tgt[1]})" in at, f"{sorted(at)}", node=app[0])
+            ctx.ob("C13-O1", "R30 ACCUMULATOR-PAIRING", k, "the appended edge is the scanned edge with its weight", ast.unparse(app[0].args[0]) == f"({', '.join(tgt)})", "", node=app[0])
+        if loop is not None:
+            for b in [n for n in ast.walk(loop) if isinstance(n, ast.Break)]:
+                at = sgv.guard_atoms(scfg.node_of(b))
+                ctx.ob("C13-O1", "R2 early exit", k, "scan stops early only once n-1 edges are accepted", atom_of("len(mst_edges) == n_nodes - 1") in at, "", node=b)
+    ctx.ob("C13-O1", "R30 ACCUMULATOR-PAIRING", k, "tree edges and weight are accumulated only inside the scan", len(app_all) == len(unions) and len(acc_all) == len(unions), f"{len(app_all)} append(s), {len(acc_all)} increment(s), {len(unions)} scan(s)", node=k.node)
     cfg = cfg_of(k.node)
     gv = GuardView(cfg)
-    srt = [n for n in own_nodes(k.node) if isinstance(n, ast.Assign) and isinstance(n.value, ast.Call) and ast.unparse(n.value.func) == "sorted"]
-    ctx.require(len(srt) == 1, "sorted edge list not found in kruskal")
-    sname = ast.unparse(srt[0].targets[0])
-    key = next((kw.value for kw in srt[0].value.keywords if kw.arg == "key"), None)
-    rev = any(kw.arg == "reverse" for kw in srt[0].value.keywords)
-    loop = [n for n in own_nodes(k.node) if isinstance(n, ast.For) and ast.unparse(n.iter) == sname]
-    ctx.require(len(loop) == 1, "kruskal main loop over the sorted edges not found")
-    tgt = [ast.unparse(e) for e in loop[0].target.elts]
-    kidx = None
-    if isinstance(key, ast.Lambda) and isinstance(key.body, ast.Subscript) and isinstance(key.body.slice, ast.Constant):
-        kidx = key.body.slice.value
-    acc = [n for n in ast.walk(loop[0]) if isinstance(n, ast.AugAssign) and isinstance(n.op, ast.Add) and ast.unparse(n.target) == "total_weight"]
-    ok = kidx is not None and not rev and len(acc) == 1 and ast.unparse(acc[0].value) == tgt[kidx] and ast.unparse(srt[0].value.args[0]) == "edges"
-    ctx.ob("C13-O1", "R30 ACCUMULATOR-PAIRING", k, "edges are scanned in non-decreasing order of the component that is accumulated as weight", ok, f"sort key index {kidx}, reverse={rev}, accumulated `{ast.unparse(acc[0].value) if acc else '?'}` of {tgt}", node=srt[0])
-    app = [n for n in own_nodes(k.node) if isinstance(n, ast.Call) and ast.unparse(n.func) == "mst_edges.append"]
-    ctx.ob("C13-O1", "R30 ACCUMULATOR-PAIRING", k, "tree append and weight increment occur once, in the same block", len(app) == 1 and len(acc) == 1 and _enclosing_block(k.node, cfg.stmt_node_containing(app[0]).ast) is _enclosing_block(k.node, acc[0]), "", node=app[0] if app else k.node)
-    if app:
-        at = gv.guard_atoms(cfg.stmt_node_containing(app[0]), stable_only=False)
-        ctx.ob("C13-O1", "R1 STATUS-GUARD", k, "an edge is accepted iff union(u, v) merged two components", f"T:uf.union({tgt[0]}, {tgt[1]})" in at, f"{sorted(at)}", node=app[0])
-        ctx.ob("C13-O1", "R30 ACCUMULATOR-PAIRING", k, "the appended edge is the scanned edge with its weight", ast.unparse(app[0].args[0]) == f"({', '.join(tgt)})", "", node=app[0])
     uf = [n for n in own_nodes(k.node) if isinstance(n, ast.Assign) and ast.unparse(n.value) == "UnionFind(n_nodes)"]
     ctx.ob("C13-O1", "R18 table", k, "union-find is sized by the node count", len(uf) == 1, "", node=k.node)
     for s in result_sites(k):
@@ -63,10 +117,6 @@ def run(ctx: Ctx):
             ctx.ob("C13-O1", "R1 STATUS-GUARD", k, "OPTIMAL only with n-1 accepted edges", atom_of("len(mst_edges) >= n_nodes - 1") in at, f"{sorted(at)}", node=s.call)
         if ast.unparse(s.arg("solution")) != "None":
             ctx.ob("C13-O1", "R5 PAIRING", k, "published (edges, weight) are the accumulated pair", ast.unparse(s.arg("solution")) == "mst_edges" and ast.unparse(s.arg("objective")) == "total_weight", "", node=s.call)
-    brk = [n for n in ast.walk(loop[0]) if isinstance(n, ast.Break)]
-    for b in brk:
-        at = gv.guard_atoms(cfg.node_of(b))
-        ctx.ob("C13-O1", "R2 early exit", k, "scan stops early only once n-1 edges are accepted", atom_of("len(mst_edges) == n_nodes - 1") in at, "", node=b)
 
     # O2 prim
     p = ctx.func("mst", "prim")
@@ -79,7 +129,8 @@ def run(ctx: Ctx):
     app = [n for n in own_nodes(p.node) if isinstance(n, ast.Call) and ast.unparse(n.func) == "mst_edges.append"]
     add = [n for n in own_nodes(p.node) if isinstance(n, ast.Call) and ast.unparse(n.func) == "in_mst.add"]
     ok = len(acc) == 1 and len(app) == 1 and len(add) == 1 and ast.unparse(acc[0].value) == w and ast.unparse(app[0].args[0]) == f"({u}, {v}, {w})" and ast.unparse(add[0].args[0]) == v
-    ctx.ob("C13-O2", "R30 ACCUMULATOR-PAIRING", p, "the popped key's first component is the weight accumulated for the popped edge; node, edge and weight are added together", ok and _enclosing_block(p.node, acc[0]) is _enclosing_block(p.node, cfg.stmt_node_containing(app[0]).ast), "", node=pop[0])
+    same = ok and _enclosing_block(p.node, acc[0]) is _enclosing_block(p.node, cfg.stmt_node_containing(app[0]).ast) is _enclosing_block(p.node, cfg.stmt_node_containing(add[0]).ast)
+    ctx.ob("C13-O2", "R30 ACCUMULATOR-PAIRING", p, "the popped key's first component is the weight accumulated for the popped edge; node, edge and weight are added together (same block)", same, "a node that joins the tree in the main loop without its edge being recorded and weighed leaves fewer than n-1 edges and too small an objective behind an OPTIMAL status", node=pop[0])
     if add:
         at = gv.guard_atoms(cfg.stmt_node_containing(add[0]), stable_only=False)
         ctx.ob("C13-O2", "R21 search discipline", p, "a popped edge is used only if its far end is not yet in the tree", f"{v} not in in_mst" in at, f"{sorted(at)}", node=add[0])
@@ -145,6 +196,42 @@ def _v_sort_reverse(tree):
     M.replace_expr(g, lambda e: isinstance(e, ast.Call) and M.src_has(e.func, "sorted"), lambda e: M.expr(ast.unparse(e)[:-1] + ", reverse=True)"))
 
 
+SCAN_CLOSURE = """def by_weight(edge):
+    return edge[2]
+def scan(batch):
+    nonlocal total_weight, iterations
+    for u, v, w in batch:
+        iterations += 1
+        if uf.union(u, v):
+            mst_edges.append((u, v, w))
+            total_weight += w
+            if len(mst_edges) == n_nodes - 1:
+                return True
+    return False
+"""
+
+
+def _scan_closure(tree, driver):
+    g = M.find_func(tree, "kruskal")
+    M.replace_stmt(g, lambda s: isinstance(s, ast.Assign) and M.src_has(s.value, "sorted(edges"), [])
+    M.replace_stmt(g, lambda s: isinstance(s, ast.For) and M.src_is(s.iter, "sorted_edges"), M.stmts(SCAN_CLOSURE + driver))
+
+
+def _v_partial_sort(tree):
+    _scan_closure(tree, "n_light = 4 * n_nodes\nif len(edges) > 2 * n_light:\n    light = nsmallest(n_light, edges, key=by_weight)\n    if not scan(light):\n        heaviest = light[-1][2]\n        rest = [e for e in edges if e[2] > heaviest and not uf.connected(e[0], e[1])]\n        scan(sorted(rest, key=by_weight))\nelse:\n    scan(sorted(edges, key=by_weight))")
+
+
+def _t_scan_closure(tree):
+    """equally valid: the scan lives in a closure that receives the complete sorted list"""
+    _scan_closure(tree, "scan(sorted(edges, key=by_weight))")
+
+
+def _v_prim_sentinel(tree):
+    g = M.find_func(tree, "prim")
+    M.replace_stmt(g, lambda s: isinstance(s, ast.Expr) and M.src_is(s.value, "mst_edges.append((u, v, weight))"), M.stmts("if u is not None:\n    mst_edges.append((u, v, weight))\n    total_weight += weight"))
+    M.replace_stmt(g, lambda s: M.src_is(s, "total_weight += weight"), [], count=1)
+
+
 def _v_accept_all(tree):
     g = M.find_func(tree, "kruskal")
     M.replace_stmt(g, lambda s: isinstance(s, ast.If) and M.src_is(s.test, "uf.union(u, v)"), lambda s: [ast.Expr(value=M.expr("uf.union(u, v)"))] + s.body)
@@ -189,5 +276,8 @@ VARIANTS = [
     M.Variant("prim accumulates a different weight than it records", MS, _v_prim_wrong_weight, "C13-O2"),
     M.Variant("prim re-adds nodes already in the tree", MS, _v_prim_no_skip, "C13-O2"),
     M.Variant("prim heap ordered by insertion counter", MS, _v_prim_key, "C13-O2"),
+    M.Variant("kruskal sorts only the lightest edges first and drops ties at the cut (seed C13-C)", MS, _v_partial_sort, "C13-O1"),
+    M.Variant("prim records an edge only when its tail is not the None sentinel (seed C13-D)", MS, _v_prim_sentinel, "C13-O2"),
+    M.Variant("twin: kruskal scan moved into a closure over the complete sorted list", MS, _t_scan_closure, None),
     M.Variant("twin: reformat", MS, _t_reformat, None),
 ]
